@@ -197,7 +197,10 @@ def run_construct(spec, rec, PhiManip):
         out = np.asarray(out)
         rec.close("admix-new-marginal", relerr(marg(out, grids + [xx], nd), phi), TOL, site=site, tags=tags)
         ref, zstar = new_pop_ref(phi, grids, full, xx)
-        rec.close("new-pop-reference", relerr(out, ref), TOL, site=site, tags=tags)
+        # the deposit weights are (z* - x_k)/dx: one ulp of difference in how the last proportion is formed (1-f1-f2-f3 against
+        # 1-sum) moves z* by eps and the weight by eps/dx, which on the clustered default grid is well above 1e-11
+        tol_w = TOL + 16 * 2.2e-16 / float(np.min(np.diff(xx)))
+        rec.close("new-pop-reference", relerr(out, ref), tol_w, site=site, tags=tags)
         value_mean_check(rec, out, zstar, xx, phi, site, tags)
         # pure splits through the dedicated entry points
         if nd == 2:
